@@ -96,3 +96,37 @@ def audit(theorems, imports=("Sessions",)):
                 json.dump(cached, f)
             os.replace(cache_file + ".tmp%d" % os.getpid(), cache_file)
     return {t: cached[t] for t in theorems}
+
+
+def proof_modules():
+    """every module of the library that holds model definitions or proofs (not the regenerated facts, not the driver glue)"""
+    mods = []
+    for p in lean_sources():
+        if not p.endswith(".lean"):
+            continue
+        rel = os.path.relpath(p, env.LEAN_DIR)[:-5]
+        if not rel.startswith("Sessions" + os.sep):
+            continue
+        if os.sep + "Generated" + os.sep in rel or os.path.basename(rel).startswith("Facts"):
+            continue
+        # only modules that are part of the build (reachable from the root): they have a compiled .olean
+        if not os.path.exists(os.path.join(env.LEAN_DIR, ".lake", "build", "lib", "lean", rel + ".olean")):
+            continue
+        mods.append(rel.replace(os.sep, "."))
+    return sorted(mods)
+
+
+def leanchecker(extra_modules=()):
+    """Independent re-check of the compiled .olean files with the toolchain's leanchecker (thorough tier).
+    Cached by the hash of the sources. Returns (ok, output tail)."""
+    key = sources_hash()
+    mark = os.path.join(env.CACHE, "leanchecker-%s.ok" % key)
+    mods = proof_modules() + list(extra_modules)
+    if os.path.exists(mark) and not extra_modules:
+        return True, "cached"
+    with env.flock("lake"):
+        p = subprocess.run(["lake", "env", "leanchecker"] + mods, cwd=env.LEAN_DIR, stdout=subprocess.PIPE, stderr=subprocess.STDOUT, text=True)
+    if p.returncode == 0 and not extra_modules:
+        with open(mark, "w") as f:
+            f.write("%d modules\n" % len(mods))
+    return p.returncode == 0, "\n".join(p.stdout.strip().split("\n")[-10:])
